@@ -5,13 +5,13 @@ SOLVER = ['--external-sat-solver', 'kissat'] if os.environ.get('VERIF_C11_SOLVER
 
 def queries():
     qs = []
-    for nthr, ncalls, rounds, quick in ((2, 1, 14, True), (2, 2, 24, True), (3, 1, 20, False), (3, 2, 36, False)):   # 3 threads: 23 min (found the signal/notify_one defect) -> thorough
+    for nthr, ncalls, rounds, quick in ((2, 1, 14, True), (2, 2, 24, False), (3, 1, 20, False), (3, 2, 36, False)):   # 3 threads: 23 min (found the signal/notify_one defect) -> thorough
         qs.append(Query('semaphore_t%d_c%d' % (nthr, ncalls), SRC, 'h_semaphore',
                         'tlx::Semaphore: %d threads, each a symbolic script of %d calls from {signal(), signal(n), wait(delta, slack), try_acquire}, delta in {1,2}, slack in {0,1}, initial value 0..2; every interleaving at synchronisation granularity (%d scheduler rounds, checked to suffice)' % (nthr, ncalls, rounds),
                         defs=['SEMAPHORE', 'NTHR=%d' % nthr, 'NCALLS=%d' % ncalls], conc=True, nt=nthr + 1, rounds=rounds, tiers=('quick', 'thorough') if quick else ('thorough',),
                         timeout=3600 if quick else 14400, unwind=4, max_unwind=80, witness=True, weight=nthr * ncalls, solver=SOLVER))
     for kind, nm in ((1, 'mutex'), (2, 'spin')):
-        for nthr, gens, rounds, quick in ((1, 2, 12, True), (2, 1, 18, True), (2, 2, 30, kind == 1), (3, 2, 48, False), (2, 3, 44, False)):   # spin barrier with 2 threads x 2 generations: 12 min -> thorough; 2 x 1 stays quick
+        for nthr, gens, rounds, quick in ((1, 2, 12, True), (2, 1, 18, True), (2, 2, 30, False), (3, 2, 48, False), (2, 3, 44, False)):   # spin barrier with 2 threads x 2 generations: 12 min -> thorough; 2 x 1 stays quick
             qs.append(Query('barrier_%s_t%d_g%d' % (nm, nthr, gens), SRC, 'h_barrier',
                             'ThreadBarrier%s: %d threads crossing %d consecutive generations with a counting action; every interleaving at synchronisation%s granularity (%d rounds, checked to suffice)' % (nm.capitalize(), nthr, gens, ' and atomic-operation' if kind == 2 else '', rounds + (2 * gens if kind == 2 else 0)),
                             defs=['BARRIER=%d' % kind, 'NTHR=%d' % nthr, 'GENS=%d' % gens], conc=True, nt=nthr + 1, rounds=rounds + (2 * gens if kind == 2 else 0), yield_atomics=(kind == 2),
